@@ -164,6 +164,38 @@ def run(tier):
             arch, typ, what = name.split('/', 2)
             ck.violation('midsave/not-reported/%s/%s' % (arch, what[:40]), {'driver': 'drv_doc', 'variant': 'asan', 'case': [meta[c][-1] for c in meta if meta[c][0] == 'midsave' and meta[c][1] == arch and meta[c][3] == what][0]},
                          'scenario "%s" (%s %s) never raised an exception in %d saves' % (what, arch, typ, d['ok']))
+    # steady-state leak monitor for the error paths of saving and loading: each failing operation is repeated 6 times in one process and the live heap
+    # bytes are sampled after every repetition; constant growth over the last repetitions is a leak (independent of LeakSanitizer's reachability scan)
+    probes, pmeta = [], {}
+    pk = 0
+    for arch, typ, kw, what in MIDSAVE:
+        for rep in range(2):
+            cid = 'lp%d' % pk
+            pk += 1
+            probes.append(D.case_line('save', arch, typ, cid, seed=rng.randrange(1, 2 ** 62), leakprobe=6, **kw))
+            pmeta[cid] = ('midsave', arch, typ, what, probes[-1])
+    for i, (arch, typ, kw, seed, doc, ns, nl) in enumerate(refs):
+        if doc is None or len(doc) < 4:
+            continue
+        for cut in (1, len(doc) // 2, len(doc) - 1):
+            cid = 'lp%d' % pk
+            pk += 1
+            probes.append(D.case_line('load', arch, typ, cid, doc=doc[:cut].hex(), src=rng.choice(['mem', 'sstream']), nodesc=1, leakprobe=6))
+            pmeta[cid] = ('trunc-load', arch, typ, 'truncated at %d' % cut, probes[-1])
+    pby, pcr = core.run_cases(exe, probes, 'asan')
+    for ln, key, err, rc in pcr:
+        ck.violation('leakprobe/crash/%s' % key, {'driver': 'drv_doc', 'variant': 'asan', 'case': ln[:4000], 'stderr': err[-1500:]}, 'process died in the leak probe: ' + key)
+    for cid, e in pby.items():
+        kind, arch, typ, what, line = pmeta[cid]
+        ck.case(('leakprobe', kind, arch, typ, what, cid), nontrivial=True)
+        lv = e.get('live_after') or []
+        if len(lv) >= 5:
+            d = [lv[j + 1] - lv[j] for j in range(len(lv) - 1)]
+            ck.cov['leak_probe_max_late_growth'] = max(ck.cov.get('leak_probe_max_late_growth', 0), max(d[-3:]))
+            if min(d[-3:]) > 0:
+                ck.violation('leakprobe/%s/%s/%s' % (kind, arch, what[:50]), {'driver': 'drv_doc', 'variant': 'asan', 'case': line[:4000], 'live_bytes_after_each_repetition': lv, 'last': e.get('last')},
+                             '%s (%s %s): live heap grows on every repetition of the failing operation (last growths %s bytes)' % (what, arch, typ, d[-3:]))
+    ck.cov['leak_probes'] = len(pby)
     ck.cov['scenarios'] = per_scen
     ck.cov['outcome_histogram'] = hist
     ck.cov['midsave'] = midsave_seen
